@@ -21,6 +21,7 @@ RULE = ('configurations: primary (Ed25519 / ECDSA P-256 / RSA-1024) with 1-2 ide
         'form, enforcement).')
 RULE += ' A key-flags subpacket in the unhashed area must grant nothing. History worker: one key object through re-certifications, re-bindings, added and removed identities; each sign/certify(user=...) in between is judged against the flags then in force. Keys with the primary in the clear and every subkey locked (a locked subkey must never act); two-octet key flags whose second octet grants nothing.'
 RULE += ' Subkey packets without any binding signature grant nothing; form stub-primary (GnuPG stub primary, complete subkeys): a subkey that carries the flag must do the work; with enforcement off and nothing carrying the flag the addressed key must not be refused when its algorithm can do the work; an identity-less key may only certify its own first identity.'
+RULE += ' Configurations with a User ID packet without self-signature in front of or behind the certified ones, with key flags only in the unhashed area of a binding signature, and with the primary key\'s flags stated in a direct-key self-signature only.'
 ASSUMPTIONS = ['which of several qualifying components is chosen is not asserted', 'any exception counts as a refusal', 'flags that the component\'s algorithm cannot perform '
                '(encrypt on EdDSA, sign on ECDH) are not generated', 'locked forms use a reference-made protected key with a low S2K count (fast to unlock)']
 
@@ -71,6 +72,9 @@ def build(cfg, secret, locked=False, with_uids=True, sub_pw=None):
     t0 = ppub.created + 100
     # a key-flags subpacket in the *unhashed* area is not covered by the signature: anyone can add it, so it grants nothing
     unauth = keypool.sp(27, bytes([C | S | EC | ES | A])) if cfg.get('unhashed') else b''
+    if with_uids and cfg.get('direct'):
+        body = rsig.sign(psec, 0x1F, 8, ('key', ppub), keypool.std_hashed(t0 + 50, ppub.fingerprint, keypool.sp(27, bytes([cfg['uids'][0] | C]))), keypool.sp(16, ppub.keyid))
+        out += wire.build_packet(2, body)
     if with_uids and cfg.get('bare') == 1:
         # a User ID packet without any self-signature (legal, RFC 4880 11.1; anybody can add one): it says nothing about the key
         out += wire.build_packet(13, b'Bare Identity <bare@example.org>')
@@ -79,7 +83,9 @@ def build(cfg, secret, locked=False, with_uids=True, sub_pw=None):
             ub = ('User %d <u%d@example.org>' % (i, i)).encode()
             # 'wide': a second flags octet (RFC 4880 5.2.3.21 "N octets of flags"; its bits mean other things, e.g. 0x04 restricted encryption,
             # 0x08 timestamping in later specifications) -- it grants none of the first-octet capabilities
-            extra = keypool.sp(27, bytes([flags | C]) + (b'\x0e' if cfg.get('wide') else b'')) + keypool.sp(11, bytes([9, 7])) + keypool.sp(21, bytes([8])) + keypool.sp(22, bytes([2, 0]))
+            # 'direct': the self-certifications state no key flags at all; a direct-key self-signature does (RFC 4880 5.2.3.3: its subpackets
+            # "apply to the entire key" -- where later specifications and GnuPG put them)
+            extra = (b'' if cfg.get('direct') else keypool.sp(27, bytes([flags | C]) + (b'\x0e' if cfg.get('wide') else b''))) + keypool.sp(11, bytes([9, 7])) + keypool.sp(21, bytes([8])) + keypool.sp(22, bytes([2, 0]))
             body = rsig.sign(psec, 0x13, 8, ('cert', ppub, 'uid', ub), keypool.std_hashed(t0 + (len(cfg['uids']) - i), ppub.fingerprint, extra), keypool.sp(16, ppub.keyid) + unauth)
             out += wire.build_packet(13, ub) + wire.build_packet(2, body)
     if with_uids and cfg.get('bare') == 2:
@@ -210,7 +216,7 @@ def evaluate(c, rec):
         user = None
     comps = components(cfg, user)
     case = dict(c, user=user)
-    key = (cfg['primary'], tuple(cfg['uids']), tuple((k, tuple(h)) for k, h in cfg['subs']), op, form, enforce, user, bool(cfg.get('unhashed')), bool(cfg.get('wide')), cfg.get('bare', 0))
+    key = (cfg['primary'], tuple(cfg['uids']), tuple((k, tuple(h)) for k, h in cfg['subs']), op, form, enforce, user, bool(cfg.get('unhashed')), bool(cfg.get('wide')), cfg.get('bare', 0), bool(cfg.get('direct')))
     labels = ['op/' + op, 'form/' + form, 'enforce/%s' % enforce, 'nsubs/%d' % len(cfg['subs'])] + (['unauthenticated-flags-in-unhashed-area'] if cfg.get('unhashed') else []) + (['two-octet-key-flags'] if cfg.get('wide') else [])
     sample = {'primary': cfg['primary'], 'identity_flags': cfg['uids'], 'subkeys': cfg['subs'], 'op': op, 'form': form, 'enforcement': enforce, 'user': user}
 
@@ -366,6 +372,8 @@ FIXED = [
     {'primary': 'rsa1024-0', 'uids': [0], 'subs': [('rsa1024-1', [A])], 'unhashed': True},
     {'primary': 'rsa1024-0', 'uids': [0], 'subs': [('rsa1024-1', [A]), ('cv25519-0', [0])], 'wide': True},
     {'primary': 'ed25519-0', 'uids': [A], 'subs': [('ed25519-1', [0])], 'wide': True},
+    {'primary': 'ed25519-0', 'uids': [S], 'subs': [], 'direct': True},
+    {'primary': 'rsa1024-0', 'uids': [EC | ES | S], 'subs': [('cv25519-0', [0])], 'direct': True},
     {'primary': 'ed25519-0', 'uids': [S], 'subs': [], 'bare': 1},
     {'primary': 'rsa1024-0', 'uids': [0], 'subs': [('ed25519-1', [S]), ('cv25519-0', [EC])], 'bare': 2},
     {'primary': 'ed25519-0', 'uids': [0], 'subs': [('ecdsa-p256-1', ['unhashed-only']), ('ed25519-1', [S]), ('cv25519-0', ['unhashed-only']), ('cv25519-1', [EC])]},
